@@ -127,19 +127,21 @@ Record st := {
   islands : bool;
   client_next : N;                  (* HydrateSharedContext.id *)
   client_ids : list N;
+  handed : list (bool * N);         (* ghost: every id the server's next_id returned, tagged with
+                                       "the browser repeats this call" *)
   log : list sexp                   (* newest first *)
 }.
 
 Definition init (isl : bool) : st :=
   {| hyd := negb isl; next_hyd := 0; next_non := two64 - 1; abuf := []; errs := [];
      sealed := []; incomplete := []; done := []; ngates := 0; ids := []; ph := NotStarted;
-     islands := isl; client_next := 0; client_ids := []; log := [] |}.
+     islands := isl; client_next := 0; client_ids := []; handed := []; log := [] |}.
 
 Definition set_log (s : st) (l : list sexp) : st :=
   {| hyd := hyd s; next_hyd := next_hyd s; next_non := next_non s; abuf := abuf s;
      errs := errs s; sealed := sealed s; incomplete := incomplete s; done := done s;
      ngates := ngates s; ids := ids s; ph := ph s; islands := islands s;
-     client_next := client_next s; client_ids := client_ids s; log := l |}.
+     client_next := client_next s; client_ids := client_ids s; handed := handed s; log := l |}.
 Definition push_log (s : st) (e : sexp) : st := set_log s (e :: log s).
 
 (** SsrSharedContext::next_id: fetch_add on [id] while hydrating, fetch_sub on
@@ -150,13 +152,15 @@ Definition next_id (s : st) : N * st :=
      {| hyd := hyd s; next_hyd := (next_hyd s + 1) mod two64; next_non := next_non s;
         abuf := abuf s; errs := errs s; sealed := sealed s; incomplete := incomplete s;
         done := done s; ngates := ngates s; ids := ids s; ph := ph s; islands := islands s;
-        client_next := client_next s; client_ids := client_ids s; log := log s |})
+        client_next := client_next s; client_ids := client_ids s;
+        handed := handed s ++ [(negb (islands s) || hyd s, next_hyd s)]; log := log s |})
   else
     (next_non s,
      {| hyd := hyd s; next_hyd := next_hyd s; next_non := (next_non s + two64 - 1) mod two64;
         abuf := abuf s; errs := errs s; sealed := sealed s; incomplete := incomplete s;
         done := done s; ngates := ngates s; ids := ids s; ph := ph s; islands := islands s;
-        client_next := client_next s; client_ids := client_ids s; log := log s |}).
+        client_next := client_next s; client_ids := client_ids s;
+        handed := handed s ++ [(negb (islands s) || hyd s, next_non s)]; log := log s |}).
 
 (** the browser runs the same program — in islands mode only the parts the server rendered
     with is_hydrating = true — and HydrateSharedContext::next_id always counts up *)
@@ -166,7 +170,7 @@ Definition client_step (s : st) : st :=
        errs := errs s; sealed := sealed s; incomplete := incomplete s; done := done s;
        ngates := ngates s; ids := ids s; ph := ph s; islands := islands s;
        client_next := (client_next s + 1) mod two64;
-       client_ids := client_ids s ++ [client_next s]; log := log s |}
+       client_ids := client_ids s ++ [client_next s]; handed := handed s; log := log s |}
   else s.
 
 Definition upd (s : st) (h : bool) (ab : list fut) (er : list (N * N * str)) (se inc : list N)
@@ -174,7 +178,7 @@ Definition upd (s : st) (h : bool) (ab : list fut) (er : list (N * N * str)) (se
   {| hyd := h; next_hyd := next_hyd s; next_non := next_non s; abuf := ab; errs := er;
      sealed := se; incomplete := inc; done := dn; ngates := ng; ids := is_; ph := p;
      islands := islands s; client_next := client_next s; client_ids := client_ids s;
-     log := log s |}.
+     handed := handed s; log := log s |}.
 
 Definition set_hyd s b := upd s b (abuf s) (errs s) (sealed s) (incomplete s) (done s) (ngates s) (ids s) (ph s).
 Definition set_abuf s ab := upd s (hyd s) ab (errs s) (sealed s) (incomplete s) (done s) (ngates s) (ids s) (ph s).
@@ -517,25 +521,3 @@ Fixpoint contains_ci (p s : str) : bool :=
 Definition has_script_end (s : str) : bool := contains_ci (k_script_end) s.
 Definition has_comment_open (s : str) : bool := contains_ci (k_comment_open) s.
 Definition inert (s : str) : bool := negb (has_script_end s) && negb (has_comment_open s).
-
-(** * id counters as pure functions of the event trace (for ids_align) *)
-Inductive ev := ENext | ESet (b : bool).
-
-(** ids the server hands out, each tagged with is_hydrating at that moment *)
-Fixpoint server_ids (h : bool) (nh nn : N) (t : list ev) : list (bool * N) :=
-  match t with
-  | [] => []
-  | ENext :: t' =>
-      if h then (true, nh) :: server_ids h ((nh + 1) mod two64) nn t'
-      else (false, nn) :: server_ids h nh ((nn + two64 - 1) mod two64) t'
-  | ESet b :: t' => server_ids b nh nn t'
-  end.
-
-(** ids the browser hands out: it executes the ENext events of hydrated regions only (in
-    non-islands mode everything is hydrated unless the program says otherwise) *)
-Fixpoint client_ids_of (h : bool) (n : N) (t : list ev) : list N :=
-  match t with
-  | [] => []
-  | ENext :: t' => if h then n :: client_ids_of h ((n + 1) mod two64) t' else client_ids_of h n t'
-  | ESet b :: t' => client_ids_of b n t'
-  end.
